@@ -137,7 +137,7 @@ def chain(case, P, d):
 
 # ----------------------------------------------------------------------------------------------- conditional pipelines
 COND_PIPES = ["joint_eval", "marginal_eval", "bayes_posterior", "set_y_evidence", "cond_entropies", "log_conditional",
-              "condition_on_dims", "kalman_scan", "lrbf_marginal", "lsem_log_conditional_y", "het_moments", "het_bound", "truncated", "nn_control"]
+              "condition_on_dims", "kalman_scan", "lrbf_marginal", "lsem_log_conditional_y", "het_moments", "het_bound", "truncated", "nn_control", "update_in_program"]
 
 
 def cond_param_shapes(pipe, Dx, Dy, kind):
@@ -156,6 +156,8 @@ def cond_param_shapes(pipe, Dx, Dy, kind):
         sh.update({"HM": (1, Dy, Dx), "Hb": (1, Dy), "HA": (1, Dy, Dy), "HW": (1, Dx + 1)})
     if pipe == "kalman_scan":
         sh.update({"KA": (1, Dx, Dx), "Kb": (1, Dx), "KQ": (1, Dx, Dx)})
+    if pipe == "update_in_program":
+        sh = {"pG": (1, Dx, Dx), "pmu": (1, Dx), "qG": (3, Dx, Dx), "qmu": (3, Dx), "uG": (2, Dx, Dx), "umu": (2, Dx)}
     if pipe == "nn_control":
         sh = {"pG": (1, Dx, Dx), "pmu": (1, Dx), "SG": (1, Dy, Dy), "NW1": (2, 3), "Nb1": (3,), "NW2": (3, Dy * (Dx + 1)), "Nb2": (Dy * (Dx + 1),), "Nu": (1, 2)}
     return sh
@@ -196,6 +198,13 @@ def cond_pipe(case, P, d):
         post = nn.affine_conditional_transformation(px, u=u).condition_on_x(y[:1])
         return jnp.concatenate([j.evaluate_ln(d).ravel(), post.mu.ravel(), nn.integrate_log_conditional_y(px, u=u, y=y[:1]).ravel(),
                                 nn.set_y(y[:1], u=u).evaluate_ln(x).ravel()])
+    if pipe == "update_in_program":
+        # in-place update inside the transformed function: a three-component density receives two replacement components,
+        # one of them twice (index array with a repetition; both writes carry the same component, so the result is unambiguous)
+        q = pdf.GaussianPDF(Sigma=spd(P["qG"]), mu=P["qmu"])
+        u = pdf.GaussianPDF(Sigma=spd(P["uG"]), mu=P["umu"])
+        q.update(jnp.array([2, 0, 2]), u.slice(jnp.array([0, 1, 0])))
+        return jnp.concatenate([q.evaluate_ln(x).ravel(), q.integrate("xx'").ravel(), q.entropy().ravel()])
     if pipe in ("lrbf_marginal", "lsem_log_conditional_y", "het_moments", "het_bound", "truncated"):
         c = None
     else:
